@@ -34,6 +34,18 @@ def gen_cases(ck, tier, seed, tmp, want_fired=True):
             return None
         ck.add_tlc("GdlRef/seeded structured programs, all texts (rtl=%d)" % rtl, r)
         seeded += [c for c in r.emitted if c["fired"] > 0]
+    # feature-selected rules and SET_FEAT, every initial feature vector
+    out = os.path.join(tmp, "seedf.ndjson")
+    cfg = utfcommon.cfg_with("GdlRef_seedf.cfg", tmp, MaxText=3 if q else 4)
+    try:
+        r = vlib.tlc("GdlRefMC.tla", cfg, out_file=out, timeout=6000, coverage=False, heap="24g")
+    finally:
+        utfcommon.rm_cfg(cfg)
+    if r.violation:
+        ck.violation("TLC: %s violated in GdlRef (feature programs)" % r.violation, {"why": "GdlRef model", "trace": vlib.tlc_error_trace(r.out)})
+        return None
+    ck.add_tlc("GdlRef/feature-selected rules, all texts and feature vectors", r)
+    seeded += [c for c in r.emitted if c["fired"] > 0]
     if not q:
         out = os.path.join(tmp, "bfs.ndjson")
         r = vlib.tlc("GdlRefMC.tla", "GdlRef_bfs.cfg", out_file=out, timeout=6000, coverage=False, heap="24g")
@@ -60,7 +72,7 @@ def write_cases(cases, path, rng=None, variants=False):
                 nlin = rng.choice([None, 2, 0])                      # some classes stored as lookup classes
                 ver = rng.choice([0x00020000, 0x00030000, 0x00040000])
             classes = CLS
-            m = gdl.font_model(c["prog"], classes, ADV, GATTR, c["rtl"], nlinear=nlin)
+            m = gdl.font_model(c["prog"], classes, ADV, GATTR, c["rtl"], nlinear=nlin, nfeat=len(c.get("feats", [])))
             d = dict(c)
             d["id"] = "c%d" % k
             d["font_hex"] = gfont.build_font(m, silf_version=ver).hex()
